@@ -68,4 +68,4 @@ class BlockIdExt:
         return True
 
     def __hash__(self):
-        return self.root_hash
+        return hash((self.workchain, self.shard, self.seqno, self.root_hash, self.file_hash))
